@@ -264,11 +264,31 @@ def dynamic_lane(work: str, lane: str, mod: str, source: str, specs: list[dict],
 
     d = os.path.join(work, f"{mod}-O{opt}")
     t0 = time.time()
-    b = build({"dir": d, "mod": mod, "source": source, "opt": opt, "patch": patch,
-               "extra_files": {"c06trk.py": c06_gen.TRACK_MODULE, mod + "_ref.py": source}})
-    out: dict = {"lane": lane, "mod": mod, "opt": opt, "build_ok": b["ok"], "build_seconds": b["seconds"], "lib_rt": b["lib_rt"],
-                 "static": b["static"], "cfg": b.get("cfg") or {}, "specs": specs, "results": [], "crashes": [],
-                 "harness_errors": []}
+    assembled = all("source" in sp for sp in specs)  # family modules: `source` is the prelude, functions come with the specs
+    rejected: list[dict] = []
+    build_seconds = 0.0
+    for _round in range(4):
+        text = c06_fam.assemble(source, specs) if assembled else source
+        b = build({"dir": d, "mod": mod, "source": text, "opt": opt, "patch": patch,
+                   "extra_files": {"c06trk.py": c06_gen.TRACK_MODULE, mod + "_ref.py": text}})
+        build_seconds += b["seconds"]
+        bad = {e["fn"] for e in b["c_errors"]} & {sp["name"] for sp in specs}
+        if b["ok"] or not assembled or not bad:
+            break
+        # the C compiler rejects some generated functions (e.g. -Werror=maybe-uninitialized): reported as violations;
+        # the module is rebuilt without them so that the other functions are still measured
+        seen = set()
+        for e in b["c_errors"]:
+            if e["fn"] in bad and (e["fn"], e["message"]) not in seen:
+                seen.add((e["fn"], e["message"]))
+                rejected.append(dict(e, spec={k: v for k, v in next(sp for sp in specs if sp["name"] == e["fn"]).items()
+                                              if k != "source"}))
+        specs = [sp for sp in specs if sp["name"] not in bad]
+        shutil.rmtree(d, ignore_errors=True)
+    specs = [{k: v for k, v in sp.items() if k != "source"} for sp in specs]
+    out: dict = {"lane": lane, "mod": mod, "opt": opt, "build_ok": b["ok"], "build_seconds": round(build_seconds, 2),
+                 "lib_rt": b["lib_rt"], "static": b["static"], "cfg": b.get("cfg") or {}, "specs": specs, "results": [],
+                 "crashes": [], "harness_errors": [], "c_rejected": rejected}
     if not b["ok"]:
         out["harness_errors"].append(f"mypyc build of {mod} failed rc={b['rc']}: {b['log'][-2500:]}")
         shutil.rmtree(d, ignore_errors=True)
@@ -437,14 +457,14 @@ def ms_verdicts(dyn: dict) -> tuple[list[Violation], list[str], Counter, list[di
                                  f"references held while the result is alive: compiled {cm['census']} vs CPython {rf['census']}"))
         for kind, txt in problems:
             viol.append(Violation(
-                f"dynamic|multi-steal|{kind}|{sp['construct']}|x:{sp['prov']}",
+                f"dynamic|multi-steal|{kind}|{sp['construct']}",
                 f"{m['name']}(k={m['k']}): {txt}; static model predicted "
                 f"{'balanced (prediction refuted)' if predicted_clean else 'a violation in this function (prediction confirmed)'}",
                 {"lane": "ms", "name": m["name"], "k": m["k"], "spec": sp, "measurement": m}))
     for c in dyn["crashes"]:
         name, k = c["where"]
         sp = spec.get(name, {"construct": "?", "prov": "?"})
-        viol.append(Violation(f"dynamic|multi-steal|crash|{sp['construct']}|x:{sp['prov']}",
+        viol.append(Violation(f"dynamic|multi-steal|crash|{sp['construct']}",
                               f"{name}(k={k}): process died with signal {c['signal']}",
                               {"lane": "ms", "name": name, "k": k, "spec": sp, "crash": c}))
     return viol, herr, st, samples
@@ -492,6 +512,16 @@ def nr_verdicts(dyn: dict) -> tuple[list[Violation], list[str], Counter, list[di
     return viol, herr, st, samples
 
 
+def c_reject_violations(dyn: dict) -> list[Violation]:
+    out = []
+    for e in dyn.get("c_rejected", []):
+        kind = "maybe-uninitialized" if "uninitialized" in e["message"] else "other"
+        out.append(Violation(f"build|c-compiler-error|{kind}|{dyn['lane']}",
+                             f"{e['fn']}: the C generated for this function is rejected by the C compiler: {e['message']}",
+                             {"lane": dyn["lane"], "name": e["fn"], "spec": e["spec"], "message": e["message"], "build": True}))
+    return out
+
+
 def cfg_violations(where: str, cfg: dict) -> list[Violation]:
     out = []
     for m in cfg.get("missing", []):
@@ -503,8 +533,8 @@ def cfg_violations(where: str, cfg: dict) -> list[Violation]:
     return out
 
 
-MS_MODULES_Q, NR_MODULES_Q = 6, 6
-MS_MODULES_T, NR_MODULES_T = 24, 8
+MS_MODULES_Q, NR_MODULES_Q = 12, 8
+MS_MODULES_T, NR_MODULES_T = 32, 16
 
 
 def start_dynamic(ctx: Ctx, work: str, patch: str | None = None) -> list:
@@ -648,6 +678,7 @@ def run(ctx: Ctx, only_files: list[str] | None = None, patch: str | None = None,
         by_stage = [dict(f, module=dyn["mod"], blocks=0) for f in dyn["static"]]
         sv = static_violations("generated:" + dyn["mod"], dyn["lane"], by_stage, lane="generated")
         sv += cfg_violations("generated:" + dyn["mod"], dyn["cfg"])
+        sv += c_reject_violations(dyn)
         for k in ("functions", "functions_with_handlers", "blocks", "blocks_with_handler"):
             cfgtot[k] += dyn["cfg"].get(k, 0)
         dyn_static_viol += len(sv)
@@ -776,8 +807,39 @@ def replay(ctx: Ctx, rec: dict) -> Result:
                 if v.signature == rec["signature"]:
                     viol.append(v)
         return Result(PROPERTY, LEVEL, {}, viol)
-    # dynamic lanes / generated modules: rebuild the module the record came from and re-measure
     work = scratch("c06", "replay")
+    if d.get("lane") == "cfg" and not str(d.get("where", "")).startswith("generated:"):
+        file, case = d["where"].split("::", 1)
+        cases = [c for c in corpus.load_file(os.path.join(corpus.MYPYC_DATA, file)) if c.name == case]
+        r = run_batch([case_job(cases[0])])[0]
+        for x in cfg_violations(d["where"], r.get("cfg") or {}):
+            print(x.signature, "::", x.what)
+            if x.signature == rec["signature"]:
+                viol.append(x)
+        return Result(PROPERTY, LEVEL, {}, viol[:1])
+    fname = d.get("name") or d.get("fn") or ""
+    if fname.startswith("ms_") or fname.startswith("nr_"):
+        # families: rebuild a module that holds just this function (plus the prelude) and re-measure / re-check it
+        if fname.startswith("ms_"):
+            lane, prelude = "ms", c06_fam.MS_PRELUDE
+            specs = [f for f in c06_fam.ms_functions(True) + c06_fam.ms_functions(False) if f["name"] == fname][:1]
+        else:
+            lane, prelude = "nr", c06_fam.NR_PRELUDE
+            specs = [f for f in c06_fam.nr_functions(["obj", "int", "i64"], True) if f["name"] == fname][:1]
+        dyn = dynamic_lane(work, lane, "c06replay", prelude, specs, 1, None)
+        v = (ms_verdicts if lane == "ms" else nr_verdicts)(dyn)[0]
+        v += static_violations("generated:" + dyn["mod"], dyn["lane"], [dict(f, module=dyn["mod"], blocks=0) for f in dyn["static"]],
+                               lane="generated")
+        v += cfg_violations("generated:" + dyn["mod"], dyn["cfg"]) + c_reject_violations(dyn)
+        for h in dyn["harness_errors"]:
+            print("harness error:", h[-2000:])
+        for x in v:
+            print(x.signature, "::", x.what)
+            if x.signature == rec["signature"]:
+                viol.append(x)
+        shutil.rmtree(work, ignore_errors=True)
+        return Result(PROPERTY, LEVEL, {}, viol[:1])
+    # dynamic lanes / generated modules: rebuild the module the record came from and re-measure
     if d.get("lane") == "conformance" or (d.get("lane") == "static" and d.get("case") == "conformance"):
         specs = [s for s in c06_gen.conformance_specs() if d.get("lane") == "static" or s["name"] == d["name"]]
         dyn = dynamic_lane(work, "conformance", "c06conf", c06_gen.conformance_source(), specs, 1, None)
